@@ -165,7 +165,9 @@ class YAMLStringFormatter(StringFormatter):
                         lines = lines[:-1]
                     for line in lines:
                         c.newline()
-                        self.parent.write_obj(c, line)
+                        if line != '':
+                            # an empty line of a block scalar is just that; anywhere else the empty string is written as ''
+                            self.parent.write_obj(c, line)
         else:
             self.parent.write_obj(printer, s)
 
@@ -195,8 +197,6 @@ class YAMLFormatter(GraphtageFormatter):
 
     @staticmethod
     def write_obj(printer: Printer, obj):
-        if obj == '':
-            return
         s = StringIO()
         dump(obj, stream=s, Dumper=Dumper)
         ret = s.getvalue()
